@@ -3,6 +3,8 @@
    ScopeProofs.v), with the axioms it rests on. *)
 From Coq Require Import List String Bool Arith.
 From Utap Require Import SR OpTableRef ExprSyntax Scope ScopeProofs.
+From Utap Require Import CommentLex CommentLexProofs.
+From Utap.gen Require Import Gen_CommentRules.
 From Utap.gen Require Import Gen_OpTable.
 Import ListNotations.
 
@@ -45,6 +47,30 @@ Theorem C09_renaming_keeps_bindings : forall (s : name -> name), (forall a b, s 
   fst (walk (size (rename s its)) (rename s its) [empty_frame]) = fst (walk (size its) its [empty_frame]).
 Proof. exact rename_invariant. Qed.
 Print Assumptions C09_renaming_keeps_bindings.
+
+(* White space and comments, at character level.  The rules flex applies inside a block comment, regenerated from lexer.l, are
+   the five rules CommentLex.v models ... *)
+Theorem C09_comment_rules_are_the_modelled_ones : gen_comment_rules = reference_rules.
+Proof. reflexivity. Qed.
+Print Assumptions C09_comment_rules_are_the_modelled_ones.
+(* ... and a scanner with those rules ends a comment exactly at the first terminator (unless an EXPECT: word runs over it), never
+   anywhere else, reports a comment without terminator, and hands a text without comments to the parser unchanged: inserting or
+   removing a comment between two tokens changes the token stream by nothing but a separator *)
+Theorem C09_comment_closes_at_first_terminator : forall n s fuel, n < fuel ->
+  (forall k, k < n -> starts close_mark (skipn k s) = false /\ starts expect_mark (skipn k s) = false) ->
+  starts close_mark (skipn n s) = true -> scan fuel s = Closed (skipn (n + 2) s).
+Proof. exact scan_closes_at_first. Qed.
+Print Assumptions C09_comment_closes_at_first_terminator.
+Theorem C09_comment_ends_only_behind_a_terminator : forall fuel s rest, scan fuel s = Closed rest ->
+  exists n, rest = skipn (n + 2) s /\ starts close_mark (skipn n s) = true.
+Proof. exact scan_ends_behind_terminator. Qed.
+Print Assumptions C09_comment_ends_only_behind_a_terminator.
+Theorem C09_unclosed_comment_is_reported : forall fuel s, (forall k, starts close_mark (skipn k s) = false) -> scan fuel s = Unclosed.
+Proof. exact scan_unclosed. Qed.
+Print Assumptions C09_unclosed_comment_is_reported.
+Theorem C09_text_without_comments_unchanged : forall fuel s, List.length s < fuel -> (forall k, starts open_mark (skipn k s) = false) -> strip fuel s = Some s.
+Proof. exact strip_without_comments. Qed.
+Print Assumptions C09_text_without_comments_unchanged.
 
 Example C09_example :
   let its := [Decl 1 10; Scope [Use 1; Decl 2 11; Use 2; Use 3]; Use 2] in
